@@ -163,3 +163,47 @@ def run(ctx):
     b = ctx.body("automerge::automerge::Automerge::exid_to_obj")
     cs = [callee(t) for _, t in b.calls()]
     ctx.ob("R2-hint", "exid_to_obj|resolves through exid_to_opid", EXID_TO_OPID in cs, b.rec["sp"], "calls %s" % [c.split("::")[-1] for c in cs if c])
+    # ---- the identity of an ExId (==, ordering, hash) never depends on the replica-local actor-index hint
+    ctx.rule("R9-hintfree", "field read set: the bodies (and closures) of ExId's PartialEq / Ord / PartialOrd / Hash impls never read field .2 (the actor-index hint) of ExId::Id")
+    IMPLS = ["<automerge::exid::ExId as core::cmp::PartialEq>::eq", "<automerge::exid::ExId as core::cmp::Ord>::cmp",
+             "<automerge::exid::ExId as core::cmp::PartialOrd>::partial_cmp", "<automerge::exid::ExId as core::hash::Hash>::hash"]
+    total_other = 0
+    for name in IMPLS:
+        if name not in f.fns:
+            raise facts.AnchorMissing(name)
+        bodies = [ctx.body(name)] + [cfg.body(r) for r in f.closures_of(name)]
+        hint, other = [], 0
+        for bd in bodies:
+            for pl, sp in field_reads(bd):
+                if "@Id" in pl:
+                    i = pl.index("@Id")
+                    nxt = pl[i + 1] if i + 1 < len(pl) else None
+                    if nxt == ".2":
+                        hint.append(sp)
+                    elif nxt in (".0", ".1"):
+                        other += 1
+        total_other += other
+        ctx.ob("R9-hintfree", "%s|hint not read" % name.split(" as ")[1], not hint, (hint or [f.fns[name]["sp"]])[0],
+               "reads %d counter/actor field(s), never the hint" % other if not hint else
+               "the comparison reads the actor-index hint of ExId::Id: the hint is replica-local (it shifts when an actor is inserted), so the same id compares differently across replicas or before/after a merge")
+    ctx.floor("reads of ExId::Id counter/actor fields in the identity impls (positive control)", total_other, 4)
+
+
+def field_reads(bd):
+    """(projection list, span) of every place read in statements and terminators of a body"""
+    def ops(o):
+        pl = o.get("c") or o.get("m")
+        if pl is not None:
+            yield pl["p"]
+    for blk in bd.blocks:
+        for st in blk["st"]:
+            rv = st["rv"]
+            for o in rv.get("o", []):
+                for x in ops(o):
+                    yield x, st["sp"]
+            if "p" in rv and isinstance(rv["p"], dict):
+                yield rv["p"]["p"], st["sp"]
+        t = blk["t"]
+        for o in t.get("args", []) + ([t["op"]] if "op" in t and isinstance(t["op"], dict) else []):
+            for x in ops(o):
+                yield x, t.get("sp", "")
